@@ -149,7 +149,9 @@ def binop(I, op, a, b, lineno=None):
         if isinstance(a, PList):
             return PList([binop(I, op, x, b, lineno) for x in a.items], 'vec')
         return PList([binop(I, op, a, y, lineno) for y in b.items], 'vec')
-    if isinstance(a, (SArr, Rec)) or isinstance(b, (SArr, Rec)):
+    if isinstance(a, SArr) or isinstance(b, SArr):
+        return sarr_binop(I, op, a, b, lineno)
+    if isinstance(a, Rec) or isinstance(b, Rec):
         raise Unsupported(f"arithmetic on {type(a).__name__}/{type(b).__name__}")
     if isinstance(a, str) or isinstance(b, str):
         return Opaque('str-op')
@@ -193,6 +195,32 @@ def binop(I, op, a, b, lineno=None):
     if op is ast.Pow:
         return power(I, a, b, lineno)
     raise Unsupported(f"operator {op.__name__}")
+
+
+def sarr_map(I, arr, fn, elem='real'):
+    """element-wise image of a symbolic-length array under fn: SV -> SV (z3 lambda)"""
+    k = z3.Int(f"k!{I.run_id}_{next(I.fresh_counter)}")
+    r = fn(SV(z3.Select(arr.a, k)))
+    t = r.t
+    return SArr(z3.Lambda([k], t), arr.n, 'real' if not z3.is_int(t) else arr.elem, arr.kind)
+
+
+def sarr_binop(I, op, a, b, lineno=None):
+    """element-wise arithmetic of symbolic-length arrays with scalars / equally long arrays"""
+    assumed(I, 'elementwise')
+    k = z3.Int(f"k!{I.run_id}_{next(I.fresh_counter)}")
+    if isinstance(a, SArr) and isinstance(b, SArr):
+        if not I.decide(a.n == b.n):
+            raise PyRaise('ValueError', 'operands could not be broadcast together', lineno)
+        x, y, n, kind = SV(z3.Select(a.a, k)), SV(z3.Select(b.a, k)), a.n, a.kind
+    elif isinstance(a, SArr):
+        x, y, n, kind = SV(z3.Select(a.a, k)), lift(b), a.n, a.kind
+    else:
+        x, y, n, kind = lift(a), SV(z3.Select(b.a, k)), b.n, b.kind
+    # side conditions (division by zero ...) are raised for the generic element k of the array
+    r = binop(I, op, x, y, lineno)
+    t = r.t
+    return SArr(z3.Lambda([k], t), n, 'real' if not z3.is_int(t) else 'int', kind)
 
 
 def ext_arith(I, op, a, b, g, lineno):
@@ -460,6 +488,13 @@ def getitem(I, base, idx, lineno=None):
         raise Unsupported(f"subscript of a generic element by {idx!r} (line {lineno})")
     if hasattr(base, 'pv_getitem'):
         return base.pv_getitem(idx)
+    if isinstance(base, TableIloc):
+        i = idx_term(I, idx)
+        n = base.rec.tindex.n
+        if not I.decide(z3.And(i >= -n, i < n)):
+            raise PyRaise('IndexError', 'single positional indexer is out-of-bounds', lineno)
+        pos = z3.If(i < 0, i + n, i)
+        return Rec({c: SV(z3.Select(a.a, pos)) for c, a in base.rec.fields.items() if isinstance(a, SArr)}, 'series')
     if isinstance(base, LocIndexer):
         if isinstance(idx, SV) and idx.is_bool:
             return getitem(I, base.rec, idx, lineno)
@@ -562,6 +597,12 @@ def fancy(I, base, idx, lineno):
     safety(I, f"fancy index in bounds (line {lineno})", inb, None, lineno)
     na = z3.Lambda([k], z3.Select(base.a, z3.Select(idx.a, k)))
     return SArr(na, idx.n, base.elem, base.kind)
+
+
+class TableIloc:
+    """table.iloc[i] -> row record (IndexError path when out of range; negative positions wrap like pandas)"""
+    def __init__(self, rec):
+        self.rec = rec
 
 
 class LocIndexer:
@@ -826,6 +867,11 @@ def sv_attr(I, x, attr, lineno):
 def rec_attr(I, r, attr, lineno):
     if attr in r.fields:
         return r.fields[attr]
+    if r.kind == 'table':
+        if attr == 'index':
+            return r.tindex
+        if attr == 'iloc':
+            return TableIloc(r)
     if attr == 'get':
         return bound('get', lambda k, d=None: r.fields.get(k, d))
     if attr == 'copy':
@@ -906,6 +952,12 @@ def sarr_attr(I, a, attr, lineno):
         return bound('pop', pop)
     if attr == 'size':
         return SV(a.n)
+    if attr == 'searchsorted':
+        return bound('searchsorted', lambda v, side='left', **k: np_searchsorted(I, a, v, side))
+    if attr in ('values', 'to_numpy'):
+        return a if attr == 'values' else bound('to_numpy', lambda *x, **k: a)
+    if attr == 'reset_index':
+        return bound('reset_index', lambda *x, **k: a)
     if attr == 'shape':
         return (SV(a.n),)
     if attr == 'astype':
@@ -1110,8 +1162,16 @@ def np_zeros(I, shape, **kw):
 
 
 def np_arange(I, n, *rest, **kw):
+    if len(rest) == 1:
+        start, stop = n, rest[0]
+        if isinstance(start, int) and isinstance(stop, int):
+            return PList([SV(k) for k in range(start, stop)], 'vec')
+        st, sp_ = idx_term(I, start), idx_term(I, stop)
+        k = z3.Int(f"k!{I.run_id}_{next(I.fresh_counter)}")
+        ln = z3.simplify(z3.If(sp_ - st > 0, sp_ - st, z3.IntVal(0)))
+        return SArr(z3.Lambda([k], k + st), ln, 'int', 'ndarray')
     if rest:
-        raise Unsupported("np.arange with start/stop")
+        raise Unsupported("np.arange with step")
     if isinstance(n, int):
         return PList([SV(k) for k in range(n)], 'vec')
     nt = idx_term(I, n)
@@ -1454,6 +1514,8 @@ def b_len(I, x):
             raise PyRaise('TypeError', 'len of scalar')
         return SV(I.array_len())
     if isinstance(x, Rec):
+        if x.kind == 'table':
+            return SV(x.tindex.n)
         return SV(I.array_len())
     raise Unsupported(f"len of {type(x).__name__}")
 
@@ -1664,10 +1726,24 @@ def pd_series(I, data=None, index=None, name=None, dtype=None, **kw):
     raise Unsupported(f"pd.Series of {type(data).__name__}")
 
 
-def pd_frame(I, data=None, index=None, **kw):
+def pd_frame(I, data=None, index=None, columns=None, **kw):
     if isinstance(data, dict):
         return Rec(data, 'frame', index=_index_token(index))
+    if isinstance(index, SArr) and columns is not None:
+        # table of symbolic length: every column is an array over the same index
+        cols = iterate(I, columns)
+        fill = lift(data if data is not None else 0)
+        k = z3.Int(f"k!{I.run_id}_{next(I.fresh_counter)}")
+        t = Rec({c: SArr(z3.Lambda([k], realish(fill.t)), index.n, 'real', 'series') for c in cols}, 'table')
+        t.tindex = index
+        return t
     raise Unsupported(f"pd.DataFrame of {type(data).__name__}")
+
+
+def pd_index(I, data=None, name=None, **kw):
+    if isinstance(data, SArr):
+        return data
+    raise Unsupported(f"pd.Index of {type(data).__name__}")
 
 
 def make_libs(I):
@@ -1739,6 +1815,8 @@ def make_libs(I):
     pd_ = LibNS('pd', {
         'Series': LibType('pd.Series', lambda *a, **k: pd_series(I, *a, **k)),
         'DataFrame': LibType('pd.DataFrame', lambda *a, **k: pd_frame(I, *a, **k)),
+        'Index': LibType('pd.Index', lambda *a, **k: pd_index(I, *a, **k)),
+        'MultiIndex': LibType('pd.MultiIndex', None),
         'api': Opaque('pd.api'),
     })
     optimize = LibNS('optimize', {'newton': L(newton), 'root': L(optimize_root)})
